@@ -328,6 +328,7 @@ def positive_control():
     p.root, p.package = '<control>', 'ctl'
     m = Module('ctl.m', 'ctl/m.py', CONTROL_SRC)
     m.project = p
+    m._scan()
     p.modules = {'ctl.m': m}
     p.funcs = {'ctl.m.control': m.funcs['control']}
     p.exports = {}
@@ -675,22 +676,40 @@ def r_verb(ctx, floor_funcs=0):
         monitors = {d.name for d in f.defs if d.kind == 'assign' and d.value is not None and
                     _is_monitor_ctor(f, d)}
         monitors = {m for m in monitors if all(_is_monitor_ctor(f, d) for d in f.defs if d.name == m)}
+        # plain copies (x = verbose / m = monitor, e.g. parameter bindings of an inlined helper) are the same thing
+        vnames = {'verbose'}
+        changed = True
+        while changed:
+            changed = False
+            for d in f.defs:
+                if d.kind == 'assign' and isinstance(d.value, ast.Name) and not d.path and d.name not in vnames | monitors:
+                    if d.value.id in vnames and all(isinstance(x.value, ast.Name) and x.value.id in vnames
+                                                    for x in f.defs if x.name == d.name and x.kind != 'param'):
+                        vnames.add(d.name)
+                        changed = True
+                    elif d.value.id in monitors and all(isinstance(x.value, ast.Name) and x.value.id in monitors
+                                                        for x in f.defs if x.name == d.name):
+                        monitors.add(d.name)
+                        changed = True
         regions = []           # (if node, stmts)
-        uses = [n for n in ast.walk(f.node) if isinstance(n, ast.Name) and n.id == 'verbose' and isinstance(n.ctx, ast.Load)]
+        uses = [n for n in ast.walk(f.node) if isinstance(n, ast.Name) and n.id in vnames and isinstance(n.ctx, ast.Load)]
         accounted = set()
         bad = []
         for n in ast.walk(f.node):
-            if isinstance(n, ast.If) and _mentions(n.test, 'verbose'):
+            if isinstance(n, ast.Assign) and isinstance(n.value, ast.Name) and n.value.id in vnames and \
+                    all(isinstance(t, ast.Name) and t.id in vnames for t in n.targets):
+                accounted.add(id(n.value))
+            if isinstance(n, ast.If) and any(_mentions(n.test, v) for v in vnames):
                 ok_test = _verbose_test(n.test)
                 for u in ast.walk(n.test):
-                    if isinstance(u, ast.Name) and u.id == 'verbose':
+                    if isinstance(u, ast.Name) and u.id in vnames:
                         accounted.add(id(u))
                 if not ok_test:
                     bad.append((n.lineno, 'verbose is combined in the test %s in a way that is not a pure guard' % ast.unparse(n.test)))
                     continue
                 nreg += 1
                 for st in n.body:
-                    b = _region_violation(st, monitors)
+                    b = _region_violation(st, monitors, _region_locals(f.node, vnames))
                     if b:
                         bad.append((st.lineno, b))
                 if n.orelse and not _positive_guard(n.test):
@@ -698,12 +717,12 @@ def r_verb(ctx, floor_funcs=0):
                 if n.orelse and _positive_guard(n.test):
                     # the else arm runs when verbose is off: it must be effect-free too (otherwise results differ)
                     for st in n.orelse:
-                        b = _region_violation(st, monitors)
+                        b = _region_violation(st, monitors, _region_locals(f.node, vnames))
                         if b:
                             bad.append((st.lineno, 'the else-arm of a verbose test: ' + b))
             elif isinstance(n, ast.Call):
                 for k in n.keywords:
-                    if isinstance(k.value, ast.Name) and k.value.id == 'verbose':
+                    if isinstance(k.value, ast.Name) and k.value.id in vnames:
                         q, callee = ctx.resolve_call(f, n)
                         if k.arg == 'verbose' and callee is not None and 'verbose' in callee.params:
                             accounted.add(id(k.value))
@@ -713,7 +732,7 @@ def r_verb(ctx, floor_funcs=0):
                             accounted.add(id(k.value))
                 q, callee = ctx.resolve_call(f, n)
                 for i, a in enumerate(n.args):
-                    if isinstance(a, ast.Name) and a.id == 'verbose':
+                    if isinstance(a, ast.Name) and a.id in vnames:
                         if callee is not None and i < len(callee.positional) and callee.positional[i] == 'verbose':
                             accounted.add(id(a))
                             npass += 1
@@ -723,7 +742,7 @@ def r_verb(ctx, floor_funcs=0):
         # monitor used outside regions
         for n in ast.walk(f.node):
             if isinstance(n, ast.Name) and n.id in monitors and isinstance(n.ctx, ast.Load):
-                if not _inside_verbose_region(f.node, n):
+                if not _inside_verbose_region(f.node, n, vnames) and not _is_alias_binding(f.node, n, monitors):
                     bad.append((n.lineno, 'the Monitor instance is used outside a verbose region'))
         run.check(not bad, 'R-VERB', f, 'verbose-neutral', bad[0][0] if bad else f.node.lineno,
                   'verbose only guards print / monitor calls or is passed down',
@@ -774,7 +793,32 @@ def _pure_expr(e):
     return True
 
 
-def _region_violation(st, monitors):
+def _region_locals(fn, vnames):
+    """names assigned inside verbose regions that are never read outside of them"""
+    inside_nodes = set()
+    for n in ast.walk(fn):
+        if isinstance(n, ast.If) and any(_mentions(n.test, v) for v in vnames):
+            for st in n.body:
+                for x in ast.walk(st):
+                    inside_nodes.add(id(x))
+    assigned = set()
+    for n in ast.walk(fn):
+        if isinstance(n, ast.Name) and isinstance(n.ctx, ast.Store) and id(n) in inside_nodes:
+            assigned.add(n.id)
+    for n in ast.walk(fn):
+        if isinstance(n, ast.Name) and n.id in assigned and id(n) not in inside_nodes:
+            assigned.discard(n.id)          # read or written outside a region: not region-local
+    return assigned
+
+
+def _is_alias_binding(fn, name_node, monitors):
+    for n in ast.walk(fn):
+        if isinstance(n, ast.Assign) and n.value is name_node and all(isinstance(t, ast.Name) and t.id in monitors for t in n.targets):
+            return True
+    return False
+
+
+def _region_violation(st, monitors, region_locals=frozenset()):
     if isinstance(st, ast.Expr) and isinstance(st.value, ast.Call):
         c = st.value
         fn = c.func
@@ -784,11 +828,14 @@ def _region_violation(st, monitors):
                     return 'argument %s of a progress call has side effects' % ast.unparse(a)[:60]
             return None
         return 'statement `%s` inside a verbose region is not a print / monitor call' % ast.unparse(st)[:60]
+    if isinstance(st, ast.Assign) and all(isinstance(t, ast.Name) and t.id in region_locals for t in st.targets) \
+            and _pure_expr(st.value):
+        return None         # a temporary that lives only inside verbose regions
     if isinstance(st, ast.If):
         if not _pure_expr(st.test):
             return 'nested test with side effects'
         for s in st.body + st.orelse:
-            b = _region_violation(s, monitors)
+            b = _region_violation(s, monitors, region_locals)
             if b:
                 return b
         return None
@@ -797,9 +844,9 @@ def _region_violation(st, monitors):
     return 'statement `%s` inside a verbose region is not a print / monitor call' % ast.unparse(st)[:70]
 
 
-def _inside_verbose_region(fn, name_node):
+def _inside_verbose_region(fn, name_node, vnames=('verbose',)):
     for n in ast.walk(fn):
-        if isinstance(n, ast.If) and _mentions(n.test, 'verbose'):
+        if isinstance(n, ast.If) and any(_mentions(n.test, v) for v in vnames):
             for st in n.body + n.orelse:
                 for x in ast.walk(st):
                     if x is name_node:
